@@ -268,3 +268,98 @@ func RunViewStorm(r sim.Src, mons []*sim.Mon, keepLog bool) *sim.World {
 	s.W.Finish()
 	return s.W
 }
+
+// RunNestedTx builds the situation C12's last sentence is about: the node holds M-1 change view
+// requests and the next view's proposal (cached, with missing transactions) while it works on a
+// proposal whose block will fail verification; supplying that proposal's last transaction makes it
+// ask for a view change, change view and start on the cached proposal inside the same call.
+// Everything else (orders, counts, interleaved events) is drawn.
+func RunNestedTx(r sim.Src, mons []*sim.Mon, keepLog bool) *sim.World {
+	n := 4 + pick(r, "N", 50, 10, 10, 30)
+	self := r.Intn("self", n)
+	base := make([]int, n)
+	for i := range base {
+		base[i] = i
+	}
+	amev := int64(-1)
+	if r.Intn("amev", 3) == 0 {
+		amev = 0
+	}
+	tip := uint32(r.Intn("tip", 30))
+	for (int(tip)+1)%n == self || (int(tip)+n)%n == self { // backup in views 0 and 1
+		tip++
+	}
+	cfg := sim.Cfg{IDs: n, Validators: func(uint32) []int { return base }, ValDesc: fmt.Sprintf("const[0..%d]", n-1), StartTip: tip,
+		AMEVHeight: amev, TimePerBlock: time.Second, TsIncrement: 1_000_000, Epoch: epoch0}
+	s := sim.NewSolo(cfg, r, self, false, mons, keepLog)
+	nd := s.N
+	nd.Start()
+	M := n - (n-1)/3
+	// M-1 change views for view 1 from others (never from the node itself)
+	others := s.Others()
+	rot := r.Intn("cvrot", len(others))
+	for i := 0; i < M-1; i++ {
+		nd.Receive(s.CV(others[(i+rot)%len(others)], 0, 1))
+	}
+	cvHeld := 0
+	for _, p := range nd.D.ChangeViewPayloads {
+		if p != nil {
+			cvHeld++
+		}
+	}
+	// proposal of view 1 arrives early (cached), with k1 unknown transactions
+	k1 := 1 + r.Intn("k1", 3)
+	var tx1 []vt.Tx
+	for i := 0; i < k1; i++ {
+		tx1 = append(tx1, s.W.NewTx(false))
+	}
+	p1 := s.Proposal(1, s.NextTs(), 11, tx1...)
+	nd.Receive(p1)
+	// proposal of view 0 with k0 unknown transactions, one of them poisoned (verification will fail)
+	k0 := 1 + r.Intn("k0", 3)
+	var tx0 []vt.Tx
+	for i := 0; i < k0; i++ {
+		tx0 = append(tx0, s.W.NewTx(i == 0))
+	}
+	// drawn order inside the proposal
+	if k0 > 1 && r.Intn("rot0", 2) == 1 {
+		tx0[0], tx0[k0-1] = tx0[k0-1], tx0[0]
+	}
+	nd.Receive(s.Proposal(0, s.NextTs(), 10, tx0...))
+	supply := func(txs []vt.Tx, label string) {
+		order := make([]int, len(txs))
+		for i := range order {
+			order[i] = i
+		}
+		for i := len(order) - 1; i > 0; i-- {
+			j := r.Intn(label, i+1)
+			order[i], order[j] = order[j], order[i]
+		}
+		for _, i := range order {
+			switch r.Intn("between", 5) {
+			case 0:
+				nd.Receive(s.RecoveryRequest(others[r.Intn("rq", len(others))], nd.D.ViewNumber))
+			case 1:
+				nd.Transaction(s.W.NewTx(false)) // an unsolicited one in between
+			case 2:
+				if pp := nd.D.PreparationPayloads[nd.D.PrimaryIndex]; pp != nil {
+					j := others[r.Intn("resp", len(others))]
+					if j != int(nd.D.PrimaryIndex) {
+						nd.Receive(s.Response(j, nd.D.ViewNumber, pp.Hash()))
+					}
+				}
+			}
+			nd.Transaction(txs[i])
+		}
+	}
+	supply(tx0, "order0")
+	if nd.D.ViewNumber == 1 {
+		s.W.Stat("c12_nested_view_change")
+	}
+	supply(tx1, "order1")
+	if cvHeld >= M-1 {
+		s.W.Stat("c12_nested_prepared")
+	}
+	s.W.Finish()
+	return s.W
+}
